@@ -189,7 +189,18 @@ pub fn font_bytes(id: &str) -> Option<Arc<Vec<u8>>> {
     let v = if let Some(seed) = id.strip_prefix("gen-") {
         seed.parse::<u64>().ok().map(|s| Arc::new(gen_font(s)))
     } else {
-        REAL_FONTS.iter().find(|f| f.0 == id).and_then(|f| std::fs::read(f.1).ok()).map(Arc::new)
+        let repo = std::env::var("VERIF_REPO").unwrap_or_else(|_| "/repo".into());
+        REAL_FONTS
+            .iter()
+            .find(|f| f.0 == id)
+            .and_then(|f| {
+                let p = match f.1.strip_prefix("/repo/") {
+                    Some(rest) => format!("{}/{}", repo, rest),
+                    None => f.1.to_string(),
+                };
+                std::fs::read(p).ok()
+            })
+            .map(Arc::new)
     };
     s.insert(id.to_string(), v.clone());
     v
@@ -199,6 +210,7 @@ pub fn font_bytes(id: &str) -> Option<Arc<Vec<u8>>> {
 // facts of the ORIGINAL font for a request (independent reader)
 // ------------------------------------------------------------------------------------------
 
+/// fact of a glyph of a SUBSET (strict reading only)
 fn fact_line(s: &Sfnt, gid: u16) -> String {
     let d = s.glyph_desc(gid);
     match s.hmetrics(gid) {
@@ -207,11 +219,37 @@ fn fact_line(s: &Sfnt, gid: u16) -> String {
     }
 }
 
+/// fact of a glyph of the ORIGINAL font: the loca-trusting reading (what the subsetter's reader
+/// sees, see c12_sfnt.rs), `B` = the glyph read fails, metrics `upem:0` when the metrics read
+/// fails; a trailing `!` says that the strict reading differs (glyph id beyond numGlyphs, entry
+/// beyond the glyf/hmtx table, …) — the oracle is silent about such glyphs.
+/// `None`: the bytes are there but do not decode as a glyph (outside the abstraction).
+fn orig_fact_line(s: &Sfnt, gid: u16) -> Option<String> {
+    let ld = s.glyph_desc_lenient(gid);
+    if matches!(ld, Some(GlyphDesc::Bad(_))) {
+        return None;
+    }
+    let lm = s.hmetrics_lenient(gid);
+    let strict_same = match (&ld, lm) {
+        (Some(d), Some(m)) => s.glyph_desc(gid) == *d && s.hmetrics(gid) == Ok(m),
+        _ => false,
+    };
+    let (a, l) = lm.unwrap_or((s.units_per_em().unwrap_or(0), 0));
+    let d = ld.map(|d| d.show()).unwrap_or_else(|| "B".into());
+    Some(format!("{}:{}:{}:{}{}", gid, a, l, d, if strict_same { "" } else { "!" }))
+}
+
+fn orig_facts(s: &Sfnt, cl: &BTreeSet<u16>) -> Option<String> {
+    let v: Option<Vec<String>> = cl.iter().map(|g| orig_fact_line(s, *g)).collect();
+    Some(join(v?, ";"))
+}
+
+/// component closure as the subsetter's reader sees the font (loca-trusting reading)
 fn closure_of(s: &Sfnt, init: &BTreeSet<u16>) -> BTreeSet<u16> {
     let mut seen = init.clone();
     let mut work: Vec<u16> = init.iter().cloned().collect();
     while let Some(g) = work.pop() {
-        for c in s.glyph_desc(g).children() {
+        for c in s.glyph_desc_lenient(g).map(|d| d.children()).unwrap_or_default() {
             if seen.insert(c) {
                 work.push(c);
             }
@@ -230,7 +268,7 @@ fn join<T: ToString>(xs: impl IntoIterator<Item = T>, sep: &str) -> String {
 }
 
 fn stripped_lens(s: &Sfnt, cl: &BTreeSet<u16>) -> String {
-    join(cl.iter().map(|g| format!("{}:{}", g, s.glyph_bytes(*g).map(stripped_len).unwrap_or(0))), ",")
+    join(cl.iter().map(|g| format!("{}:{}", g, s.glyph_bytes_lenient(*g).map(stripped_len).unwrap_or(0))), ",")
 }
 
 fn is_cff(s: &Sfnt) -> bool {
@@ -241,9 +279,10 @@ fn is_cff(s: &Sfnt) -> bool {
 fn make_tt(id: &str, used: &[u32], with_all: bool) -> Option<String> {
     let bytes = font_bytes(id)?;
     let s = Sfnt::parse(&bytes).ok()?;
-    let cmap = s.cmap_unicode().ok()?;
-    let ng = s.num_glyphs().ok()?;
     let cff = is_cff(&s);
+    // TrueType: the cmap as a reader that does not cross-check it against maxp sees it
+    let cmap = if cff { s.cmap_unicode().ok()? } else { s.cmap_unicode_lenient().ok()? };
+    let ng = s.num_glyphs().ok()?;
     let mapped: Vec<(u32, u16)> = used.iter().filter_map(|c| cmap.get(c).map(|g| (*c, *g))).collect();
     if cff {
         return cff::make_cf(id, used, &bytes, &s, &mapped, ng);
@@ -251,7 +290,7 @@ fn make_tt(id: &str, used: &[u32], with_all: bool) -> Option<String> {
     let mut init: BTreeSet<u16> = mapped.iter().map(|p| p.1).collect();
     init.insert(0);
     let cl = closure_of(&s, &init);
-    let facts = join(cl.iter().map(|g| fact_line(&s, *g)), ";");
+    let facts = orig_facts(&s, &cl)?;
     let all = if with_all { join(cmap.iter().map(|(c, g)| format!("{}:{}", c, g)), ",") } else { "?".into() };
     Some(format!(
         "tt font={} used={} size={} ng={} cff=0 lf={} sl={} cmap={} allcmap={} g={}",
@@ -280,7 +319,7 @@ fn make_tg(id: &str, used: &[u16]) -> Option<String> {
         is_cff(&s) as u8,
         s.loca_format().unwrap_or(1),
         if is_cff(&s) { "-".to_string() } else { stripped_lens(&s, &cl) },
-        if is_cff(&s) { "-".to_string() } else { join(cl.iter().map(|g| fact_line(&s, *g)), ";") }
+        if is_cff(&s) { "-".to_string() } else { orig_facts(&s, &cl)? }
     ))
 }
 
@@ -367,7 +406,7 @@ struct FontInfo {
 fn info(id: &str) -> Option<FontInfo> {
     let bytes = font_bytes(id)?;
     let s = Sfnt::parse(&bytes).ok()?;
-    let cmap = s.cmap_unicode().ok()?;
+    let cmap = if is_cff(&s) { s.cmap_unicode().ok()? } else { s.cmap_unicode_lenient().ok()? };
     Some(FontInfo {
         id: id.to_string(),
         cmap: cmap.into_iter().collect(),
@@ -521,7 +560,7 @@ fn gen(rng: &mut Rng, tier: Tier) -> Vec<Case> {
                 let bad: Vec<u32> = fi
                     .cmap
                     .iter()
-                    .filter(|p| matches!(s.glyph_desc(p.1), GlyphDesc::Bad(_)))
+                    .filter(|p| s.glyph_bytes_lenient(p.1).is_none())
                     .map(|p| p.0)
                     .collect();
                 if !bad.is_empty() {
@@ -585,5 +624,21 @@ fn chars_for_closure(fi: &FontInfo, want: usize, rng: &mut Rng) -> Option<Vec<u3
 }
 
 fn main() {
+    let args: Vec<String> = std::env::args().collect();
+    if args.get(1).map(|s| s.as_str()) == Some("dump") {
+        // debugging aid: `c12 dump <font-id>` prints directory, loca and glyph facts
+        let id = &args[2];
+        let bytes = font_bytes(id).expect("font");
+        let s = Sfnt::parse(&bytes).expect("sfnt");
+        println!("len={} lf={:?} ng={:?} nhm={:?}", bytes.len(), s.loca_format(), s.num_glyphs(), s.num_h_metrics());
+        for t in &s.tables {
+            println!("{} off={} len={}", String::from_utf8_lossy(&t.tag), t.offset, t.length);
+        }
+        println!("loca={:?}", s.loca());
+        for g in 0..s.num_glyphs().unwrap_or(0) {
+            println!("{} | {:?} {:?}", fact_line(&s, g), orig_fact_line(&s, g), s.glyph_bytes(g).map(|b| b.len()));
+        }
+        return;
+    }
     harness_main(gen, run, Limits { per_case: std::time::Duration::from_secs(60), ..Limits::default() });
 }
